@@ -6,6 +6,9 @@ TAU == <<"T", "A", "U">>
 \* 2 threads, two sections each, lock and try_lock
 P2  == <<LAU \o TAU, LAU \o LAU>>
 P2t == <<TAU \o LAU, TAU \o TAU>>
+\* Debug formatting of the mutex mixed in
+P2d == <<<<"D">> \o TAU \o <<"D">>, LAU \o <<"D">> \o TAU>>
+P3d == <<<<"D">> \o LAU, LAU, TAU \o <<"D">>>>
 \* 3 threads, one section each
 P3  == <<LAU, LAU, LAU>>
 P3t == <<LAU, LAU, TAU>>
